@@ -93,7 +93,7 @@ def model_check(ctx, quick):
                      "graphs with <= 2 association instances")
     ctx.tlc(C, "WbemServerCentralMC.cfg",
             label="central: Impl admissible in every graph of 3 profiles x 4 "
-            "resources with <= 3 association instances, 27 server-answer "
+            "resources with <= 3 association instances, 12 server-answer "
             "combinations, core queries")
     ctx.tlc(C, "WbemServerCentralMCDeep.cfg",
             label="central: scoping scenarios, <= 6 association instances")
